@@ -271,7 +271,8 @@ def BVV(value, size=None, **kwargs) -> BV:
             pass
 
     result = BV("BVV", (value, size), length=size, **kwargs)
-    _bvv_cache[(value, size)] = result
+    if not kwargs:  # an annotated (or otherwise customized) constant must not be handed out for plain requests
+        _bvv_cache[(value, size)] = result
     return result
 
 
